@@ -17,10 +17,11 @@ for d in sorted(glob.glob(os.path.join(VERIF, "seeded", "C*-*"))):
     for sd, got in sorted(seeds.items()):
         also.append(f"seed {sd}: " + (", ".join(c for c, v in got.items() if v) or "none"))
     summ = re.sub(r"\s+", " ", m.get("summary", "")).replace("|", "/")
+    sup = m.get("superseded")
     rows.append(
         "| {} | {} | {} | {} | {} |".format(
             name, summ[:150] + ("…" if len(summ) > 150 else ""),
-            ", ".join(det) or "**none**", "; ".join(also) or "—",
+            ("(superseded: harmless since a later fix) " if sup else "") + (", ".join(det) or "**none**"), "; ".join(also) or "—",
             msg.replace("|", "/")[:120],
         )
     )
